@@ -345,6 +345,7 @@ func checkPair(a, b operand, same bool) {
 }
 
 func main() {
+	ev.GuardFor("C03")
 	r := ev.Start("C03")
 	r.SetDeadline(ev.Pick(r, 50*time.Second, 1200*time.Second))
 	e = &enum.E{R: r}
@@ -619,6 +620,55 @@ func bigSets(r *ev.Run) {
 						}
 					}
 					calls += 5
+				}
+			}
+		}
+	}
+	// size-asymmetric operands (a shortcut that walks the smaller operand, or one taken only
+	// when one side is much larger): big A against B of 1..5 members, partly inside A, both ways
+	for _, n := range []int{8, 16, 17, 40, 130} {
+		A := map[int]bool{}
+		for i := 0; i < n; i++ {
+			A[i*2] = true
+		}
+		for _, bm := range [][]int{{1}, {2}, {1, 2}, {2, 1, 4}, {3, 5, 6, 7, 9}, {2*n + 1, 2, 3, 4, 8}, {0, 2, 4}} {
+			B := map[int]bool{}
+			for _, v := range bm {
+				B[v] = true
+			}
+			for _, ka := range []kind{kMaps, kSync} {
+				for _, kb := range []kind{kMaps, kSync} {
+					for rep := 0; rep < 4; rep++ { // map iteration order varies between runs of one process
+						for _, swap := range []bool{false, true} {
+							X, Y, kx, ky := A, B, ka, kb
+							if swap {
+								X, Y, kx, ky = B, A, kb, ka
+							}
+							type bin struct {
+								name string
+								f    func(a, b sets.Set[int]) sets.Set[int]
+								op   func(a, b bool) bool
+							}
+							for _, o := range []bin{
+								{"Union", func(a, b sets.Set[int]) sets.Set[int] { return a.Union(b) }, func(a, b bool) bool { return a || b }},
+								{"Intersect", func(a, b sets.Set[int]) sets.Set[int] { return a.Intersect(b) }, func(a, b bool) bool { return a && b }},
+								{"SetDiff", func(a, b sets.Set[int]) sets.Set[int] { return a.SetDiff(b) }, func(a, b bool) bool { return a && !b }},
+								{"SymDiff", func(a, b sets.Set[int]) sets.Set[int] { return a.SymDiff(b) }, func(a, b bool) bool { return a != b }},
+							} {
+								want := map[int]bool{}
+								for v := 0; v <= 2*n+1; v++ {
+									if o.op(X[v], Y[v]) {
+										want[v] = true
+									}
+								}
+								res := o.f(mk(kx, X, false), mk(ky, Y, false))
+								calls++
+								if m := same(res, want); m != "" {
+									r.Report(ev.Violation{Sig: "family|" + o.name + "|result", Msg: fmt.Sprintf("%s of a %d-element and a %d-element set (impl %d/%d): %s", o.name, len(X), len(Y), kx, ky, m), Replay: map[string]any{"family": "asymmetric-sets", "sizes": []int{len(X), len(Y)}, "op": o.name}})
+								}
+							}
+						}
+					}
 				}
 			}
 		}
